@@ -668,3 +668,54 @@ Proof.
   destruct (transparent ops) as (HI & _ & Hv & _). apply build_eq; [done|].
   rewrite Hv. apply attrs_run.
 Qed.
+
+(** ** Record operations around the merge *)
+
+Import Chain.
+
+(** Refused operations leave the record state, hence the result of a following merge, as it is. *)
+Lemma refused_ops_frame mfm ro (S : rstate) (ops : list rop) :
+  Forall (λ o, rstep mfm ro S o = None) ops →
+  rrun mfm ro S ops = S ∧ ∀ d, merge_files mfm d (rrun mfm ro S ops) = merge_files mfm d S.
+Proof.
+  intros H. assert (rrun mfm ro S ops = S) as ->; [|done].
+  induction H as [|o ops Ho _ IH]; [done|]. unfold rrun in *. cbn [foldl].
+  unfold rapply at 2. by rewrite Ho.
+Qed.
+
+(** Which operations are refused: on a committed record everything but [create_patch]; through
+    a read-only handle everything. *)
+Lemma committed_refuses mfm ro (S : rstate) (o : rop) :
+  rs_writable S = false → (∀ p, o = RCreate p → ro = true) → rstep mfm ro S o = None.
+Proof.
+  intros Hw Hc. destruct o as [mid mh|p| |o]; cbn; rewrite Hw.
+  - by destruct ro.
+  - by rewrite (Hc p eq_refl).
+  - by destruct ro.
+  - done.
+Qed.
+
+(** [create_patch], any writes, [discard_patch]: back to the same state. *)
+Lemma create_discard_frame mfm (S : rstate) (p : N) (ws : list op) :
+  rs_writable S = false → rs_files S ≠ [] → Forall (λ o, o ≠ OBoundary) ws →
+  rrun mfm false S (RCreate p :: map RWrite ws ++ [RDiscard]) = S.
+Proof.
+  destruct S as [R fs w]. cbn. intros -> Hfs Hws.
+  destruct fs as [|b fs']; [done|]. unfold rrun. cbn [foldl].
+  unfold rapply at 2. cbn.
+  set (nf := new_patch_file p (List.last (b :: fs') b)).
+  assert (Hgen : ∀ R', same_base (m_boundary R) R' →
+    foldl (rapply mfm false) (MkRs R' (b :: fs' ++ [nf]) true) (map RWrite ws ++ [RDiscard])
+    = MkRs R (b :: fs') false).
+  { induction Hws as [|o ws Ho _ IH]; intros R' [Htl Hti].
+    - cbn. unfold rapply. cbn. destruct (fs' ++ [nf]) eqn:E; [by destruct fs'|]. rewrite <-E.
+      f_equal; [done|]. f_equal. apply removelast_last.
+    - cbn [map app foldl].
+      assert (∃ R'', rapply mfm false (MkRs R' (b :: fs' ++ [nf]) true) (RWrite o)
+                     = MkRs R'' (b :: fs' ++ [nf]) true ∧ same_base R' R'') as (R'' & -> & Hb).
+      { unfold rapply. cbn. pose proof (step_base R' o Ho) as Hb.
+        destruct o; try done.
+        all: destruct (m_step R' _) as [R2 ok]; cbn in Hb; destruct ok; [by exists R2|by exists R']. }
+      apply IH. eapply same_base_trans; [|exact Hb]. by split. }
+  apply Hgen. done.
+Qed.
